@@ -822,19 +822,27 @@ func (w *writer) encodeEncoding(sids []int) []byte {
 			out = append(out, byte(main[gid]))
 		}
 	} else {
-		out = []byte{1, 0}
 		n := 0
-		for i := 1; i <= maxGID; {
-			j := i
-			for j+1 <= maxGID && main[j+1] == main[j]+1 {
-				j++
+		// ranges are sometimes split at random; when that needs more than
+		// the 255 ranges a Card8 can count, the maximal ranges are used
+		for _, split := range []bool{true, false} {
+			out = []byte{1, 0}
+			n = 0
+			for i := 1; i <= maxGID; {
+				j := i
+				for j+1 <= maxGID && main[j+1] == main[j]+1 {
+					j++
+				}
+				if split && j > i && w.opt.Pick(8) == 7 {
+					j = i + w.opt.Pick(j-i+1)
+				}
+				out = append(out, byte(main[i]), byte(j-i))
+				n++
+				i = j + 1
 			}
-			if j > i && w.opt.Pick(8) == 7 {
-				j = i + w.opt.Pick(j-i+1)
+			if n <= 255 {
+				break
 			}
-			out = append(out, byte(main[i]), byte(j-i))
-			n++
-			i = j + 1
 		}
 		if n > 255 {
 			// too many ranges for a Card8: only format 0 can hold this
